@@ -30,9 +30,9 @@ struct world : sim::configuration
 	std::map<std::string, std::shared_ptr<sim::sink>> hops;
 	std::vector<std::pair<std::string, std::string>> mtu_calls;
 	bool strip_probes = false;
-	// "default": true - the routes are those of the library's own sim::default_config (wrapped in probes); the
-	// parameters recorded for the specification are the documented ones (200 kB/s up, 800 kB/s down, 1 ms and
-	// 200 kB per modem queue, 30 ms network), so a default that silently changes is a rejected trace
+	// "default": true - the routes are those of the library's own sim::default_config (wrapped in probes).  No
+	// property fixes the default parameters, so none is assumed for the end-to-end bound (latencies and bandwidths
+	// are recorded as 0 = no bound); only "the queues are finite" is recorded, which is what makes a loss legal
 	bool use_default = false;
 	sim::default_config dflt;
 
@@ -82,8 +82,8 @@ struct world : sim::configuration
 				c.out_bw = int(geti(a, "out_bw")); c.in_bw = int(geti(a, "in_bw"));
 				if (use_default)
 				{
-					c.out_lat = c.in_lat = 1000000 / tick_ns;
-					c.out_bw = 200 * 1000; c.in_bw = 800 * 1000; c.out_cap = c.in_cap = 200 * 1000;
+					c.out_lat = c.in_lat = 0;
+					c.out_bw = 0; c.in_bw = 0; c.out_cap = c.in_cap = 200 * 1000;
 				}
 				add_addr(c);
 				for (std::size_t b = 0; b < c.nat.size();)
@@ -101,7 +101,7 @@ struct world : sim::configuration
 				json::object const& m = mv.as_object();
 				mtu[{gets(m, "a"), gets(m, "b")}] = int(geti(m, "m"));
 			}
-		if (use_default) { has_net = true; net_lat = 30000000 / tick_ns; net_cap = 0; net_bw = 0; dmtu = 1475; mtu.clear(); }
+		if (use_default) { has_net = true; net_lat = 0; net_cap = 0; net_bw = 0; dmtu = 1475; mtu.clear(); }
 		else if (t.find("net") != t.end())
 		{
 			json::object const& n = t.at("net").as_object();
